@@ -75,6 +75,15 @@ class GotranPythonCodePrinter(PythonCodePrinter):
             return "numpy.inf" if value > 0 else "(-numpy.inf)"
         return self._print(str(value))
 
+    def _print_Pow(self, expr, rational=False):
+        text = super()._print_Pow(expr, rational=rational)
+        # sympy writes x**(-1/2) as the quotient "1/sqrt(x)" (and x**-1 as "1/x") but
+        # decides about parentheses as for a power: as a denominator, a/(x**(-1/2)),
+        # the bare text would read "a/1/sqrt(x)"
+        if not rational and expr.exp in (-sympy.S.Half, sympy.S.NegativeOne):
+            return f"({text})"
+        return text
+
     def _print_Mod(self, expr):
         # ``%`` binds as tightly as ``*`` in Python, so a bare ``a % b`` inside a
         # product (e.g. ``2*a % b``) would change meaning
